@@ -4,8 +4,12 @@
    where spec_decode follows only the file's own pointers.  The independent decoder exists today as
    lib/c3dspec.py and is applied by the C03 check to every file the real library writes (all 512
    alignment residues included).  What IS proved here, for every object and every length of the
-   record area: the layout facts that decoder relies on. *)
-From EZ Require Import Base Bytes Types Api Enc Proofs_Section Float32 Run.
+   record area: the layout facts that decoder relies on, and for every tree of well-formed groups and parameters the exact
+   content of the whole file (C03_file_structure): header block, prologue, the records in order with upper-cased names,
+   lock flags as negative name lengths, next-record offsets equal to the record lengths, POINT:DATA_START and the header
+   word both naming the first data block, padding with the end marker, data.  That the loader of C01 reads it back is
+   C01_load_save; an independent decoder IN COQ is what is still missing for the statement above. *)
+From EZ Require Import Base Bytes Types Api Enc Dec Proofs_Section Proofs_Codec Proofs_Record Proofs_Chain Proofs_ChainW Float32 Run.
 Local Open Scope N_scope.
 
 (* padding: 1..512 zero bytes — there is always an end marker — ending on a block boundary, for every length *)
@@ -54,6 +58,31 @@ Proof. exact frame_bytes_length. Qed.
 Print Assumptions C03_frame_size.
 
 (* known finding: the scale word of an object that was never loaded is FF FF FF FF, a NaN *)
+(* THE WHOLE FILE, for a tree of well-formed groups and parameters: one header block whose data-start word is the
+   1-based number of the first data block; the parameter section = prologue (its third byte the number of parameter blocks),
+   then exactly the records of the tree in order — each one a name-length byte (negative: locked), the group id (negative:
+   a group), the UPPER-CASED name, the offset to the next record, type, dimensions, values, description — with
+   POINT:DATA_START holding that same block number, then 1..512 zero bytes (the first is the end marker); then the data. *)
+Theorem C03_file_structure : forall s bytes, wf_header (hdr s) -> ok_tree (groups s) ->
+  (nds (recs_of (groups s) 1) <= 1)%nat -> save s = Ok bytes ->
+  exists sec blocks pad, section_bytes (pro s) (groups s) = Ok (sec, blocks) /\
+    (blocks + 1 < 256 ->
+     1 <= pad <= 512 /\
+     bytes = header_bytes (hdr s) (blocks + 1)
+             ++ ([low8 (Z.of_N (ps_start (pro s))); 80; low8 (Z.of_N (blocks - 1)); 84]
+                 ++ concat (map item_bytes (items_v (groups s) 1 (blocks + 1))) ++ repeat 0 (N.to_nat pad))
+             ++ data_section (frames s) /\
+     length (header_bytes (hdr s) (blocks + 1)) = 512%nat /\
+     nlen bytes = 512 * blocks + nlen (data_section (frames s))).
+Proof.
+  intros s bytes Wl Hok Hn Sv. destruct (save_layout s bytes Wl Sv) as [sec [blocks [Hs [Eb [Lh [Ls Lb]]]]]].
+  destruct (N.ltb_spec (blocks + 1) 256) as [Hb|Hb].
+  - destruct (section_canonical (pro s) (groups s) sec blocks Hok Hn Hs Hb) as [pad [Hp Es]].
+    exists sec, blocks, pad. split; [exact Hs|]. intros _. split; [exact Hp|]. split; [rewrite <- Es; exact Eb|]. split; assumption.
+  - exists sec, blocks, 1. split; [exact Hs|]. intros C. exfalso. apply (N.lt_irrefl 256). eapply N.le_lt_trans; eassumption.
+Qed.
+Print Assumptions C03_file_structure.
+
 Example C03_scale_refuted : firstn 4 (skipn 12 (header_bytes init_header 3)) = [255; 255; 255; 255].
 Proof. vm_compute. reflexivity. Qed.
 Print Assumptions C03_scale_refuted.
